@@ -52,7 +52,7 @@ def main(tier):
     import functools
     orig = passes.ast_cfg
     outer = {c[:6]: (c[6] if len(c) > 6 else None) for v in CONFIGS.values() for n, c, b in v}
-    passes.ast_cfg = lambda *a, **k: orig(*a, outer=outer.get(tuple(a[:6])), invariants=() if a[0] in ('H_CH', 'H_CHQ') else ('MeaningDefined', 'EraseAgrees'))
+    passes.ast_cfg = lambda *a, **k: orig(*a, outer=outer.get(tuple(a[:6])), invariants=('AliasSound',) if a[0] in ('H_CH', 'H_CHQ') else ('MeaningDefined', 'EraseAgrees', 'AliasSound'))
     try:
         return passes.run_property(
             PROP, tier, cfgs, sites, owned, nontrivial,
